@@ -48,7 +48,9 @@ def main():
 
     flip = {'on': False, 'calls': 0}
     def objid(obj):
-        return (0 if obj.name == 'a1' else 1) if isinstance(obj, A) else (2 if obj.title == 'b1' else 3)
+        if isinstance(obj, A): return 0 if obj.name == 'a1' else 1
+        if isinstance(obj, B): return 2 if obj.title == 'b1' else 3
+        return -1        # objects of the inheritance universe carry no roles / labels
 
     @core.user_groups_getter(User)
     def groups_of(user):
@@ -133,6 +135,9 @@ def main():
                     # already fully loaded
                     for x in tg[6:]:
                         res.append(tojson_include(x, u))
+                    # the schema section: which entities / attributes are listed for this user
+                    sch = {d['name']: set(a['name'] for a in d['newAttrs']) for d in json.loads(db.to_json([], with_schema=True))['schema']}
+                    res += ['A' in sch, 'B' in sch, 'name' in sch.get('A', ()), 'bs' in sch.get('A', ()), 'title' in sch.get('B', ()), 'a' in sch.get('B', ())]
                 finally:
                     core.set_current_user(None)
         # ... and in a fresh session where only the top object has been loaded: the to-one side arrives as a seed (pk only) and is
@@ -147,15 +152,46 @@ def main():
                 finally:
                     core.set_current_user(None)
                 fresh[u.uid if u is not None else 0].append(res_cell)
-        # table layout per user: 20 has_perm, 10 can_view, 4 to_json, 4 to_json+include (all loaded), 4 to_json+include (fresh session)
+        # table layout per user: 20 has_perm, 10 can_view, 4 to_json, 4 to_json+include (all loaded), 6 schema cells, 4 to_json+include (fresh session)
         out = []
-        per = 38
+        per = 44
         for ui in range(3):
-            out += res[ui * per:(ui + 1) * per] + fresh[ui]
+            row = res[ui * per:(ui + 1) * per]
+            out += row[:38] + fresh[ui] + row[38:]       # ... to_json+include (loaded), to_json+include (fresh session), schema cells
         return out
 
     results = []
     mode = payload.get('mode', 'table')
+    if mode == 'inherit':
+        # a second universe: Base <- Sub, Other; Base.secret is hidden; rules are declared through set_perms_for on Base / Sub / Other
+        db2 = orm.Database('sqlite', ':memory:')
+        class Base(db2.Entity):
+            name = orm.Required(str)
+            secret = orm.Optional(str, hidden=True)
+        class Sub(Base):
+            pass
+        class Other(db2.Entity):
+            title = orm.Required(str)
+        db2.generate_mapping(create_tables=True)
+        with orm.db_session:
+            Base(name='base1'); Sub(name='sub1'); Other(title='o1')
+        E3 = [Base, Sub, Other]; A3 = [Base.name, Base.secret, Other.title]
+        for decls in payload['decls']:
+            for e in E3: e._access_rules_.clear()
+            for d in decls:
+                with db2.set_perms_for(*[E3[i] for i in d['ctx']]):
+                    rule = core.perm('view', **({'groups': list(d['groups'])} if d['groups'] else {}))
+                    ex = [E3[i] for i in d['exclE']] + [A3[i] for i in d['exclA']]
+                    if ex: rule.exclude(*ex)
+            with orm.db_session:
+                objs = [Base.select(lambda b: b.name == 'base1').first(), Sub.select().first(), Other.select().first()]
+                assert type(objs[0]) is Base and type(objs[1]) is Sub
+                tg = E3 + A3 + objs
+                row = [bool(core.has_perm(u, 'view', x)) for u in (USERS[0], USERS[2]) for x in tg]
+            results.append({'table': row, 'sizes': [[len(e._access_rules_.get('view', ())) for e in E3]]})
+        for e in E3: e._access_rules_.clear()
+        sys.stdout.write('\n@@JSON@@' + json.dumps({'results': results}))
+        return
     if mode == 'sessions':
         # histories across sessions of one thread: session 1 (check; ends with commit or with an exception -> rollback), the user's
         # groups / roles change, session 2 (check).  The thread-local provider caches must not carry session 1's answers over.
